@@ -8,7 +8,9 @@ from typing import Any, Dict, List, Optional, Tuple
 
 from ..absint import Evaluator, Outcome, SELF, NONE, attr, const, glob, is_const, show
 from ..core import AnalysisError, Report
-from ..model import Repo
+import ast
+
+from ..model import Repo, call_name
 
 MOD = "cminx.documentation_types"
 API = ("directive", "text", "field", "option", "bulleted_list", "enumerated_list", "doctest", "section",
@@ -644,3 +646,146 @@ def rule_member_independence(rep: Report, repo: Repo, rule: str) -> None:
         rep.check(len(ps) == 2, rule, where(mc), f"process({', '.join(ps)})",
                   f"{mc}.process takes additional parameters: the class can render the same member in different ways")
     rep.floor(rule, 6, "member rendering facts")
+
+
+# ----------------------------------------------------------------------
+def _entry_classes(repo: Repo):
+    return [c for c in repo.classes.values() if c.module == MOD and "process" in c.methods or
+            (c.module == MOD and repo.find_method(c.name, "process") is not None)]
+
+
+def _index_hazards(fn: ast.FunctionDef, parents) -> Tuple[int, List[Tuple[str, str]]]:
+    """(number of indexed field accesses examined, hazards as (construct, message))."""
+    from ..model import guards_of, norm, walk_no_nested
+    n = 0
+    out: List[Tuple[str, str]] = []
+    for node in walk_no_nested(fn):
+        if isinstance(node, ast.Call) and call_name(node) == "zip" and any(k.arg == "strict" and isinstance(k.value, ast.Constant)
+                                                                          and k.value.value is True for k in node.keywords):
+            out.append((norm(node)[:80], "zip(strict=True) raises ValueError when the two lists differ in length: the listener never "
+                        "ties them together (declared types vs. parameters of the implementing function)"))
+        if isinstance(node, ast.Subscript) and isinstance(node.ctx, ast.Load) and isinstance(node.slice, ast.Name) \
+                and isinstance(node.value, ast.Attribute) and isinstance(node.value.value, ast.Name) and node.value.value.id == "self":
+            n += 1
+            idx, lst = node.slice.id, norm(node.value)
+            bounded = False
+            q = parents.get(node)
+            while q is not None and q is not fn:
+                if isinstance(q, ast.For):
+                    it = norm(q.iter)
+                    tgt = norm(q.target)
+                    if (tgt == idx and it in (f"range(len({lst}))", f"range(0, len({lst}))")) or \
+                            (tgt.startswith(f"({idx}, ") and it == f"enumerate({lst})"):
+                        bounded = True
+                q = parents.get(q)
+            for g in guards_of(fn, node, parents):
+                t = norm(g.test)
+                if (t in (f"{idx} >= len({lst})", f"len({lst}) <= {idx}") and not g.polarity) or \
+                        (t in (f"{idx} < len({lst})", f"len({lst}) > {idx}") and g.polarity):
+                    bounded = True
+            if not bounded:
+                out.append((f"{lst}[{idx}]", f"`{lst}[{idx}]` is not bounded by the length of `{lst}`: rendering raises IndexError when the "
+                            f"lists differ in length"))
+    return n, out
+
+
+def rule_render_total(rep: Report, repo: Repo, rule: str) -> None:
+    """Rendering cannot raise on data the listener produces: element access by index is bounded by the list it indexes, and no
+    strict zip over two lists whose lengths the listener does not tie together."""
+    import os
+    from ..core import VERIF_DIR
+    rep.rule(rule, "in every process() method an index into a list field is bounded by that same list (loop over its range, an "
+                   "explicit length guard) and no zip(..., strict=True) joins two fields: rendering never raises IndexError/ValueError")
+    m = repo.module(MOD)
+    n = 0
+    for ci in repo.classes.values():
+        if ci.module != MOD:
+            continue
+        for mname, fn in ci.methods.items():
+            k, hazards = _index_hazards(fn, m.parents)
+            n += k
+            for cons, msg in hazards:
+                rep.bad(rule, f"{MOD}:{ci.name}.{mname}", cons, msg, witness="cpp_member(log Logger str args) + function(${log} self level)")
+    ctree = ast.parse(open(os.path.join(VERIF_DIR, "controls", "render_index.py")).read())
+    cpar = {ch: p for p in ast.walk(ctree) for ch in ast.iter_child_nodes(p)}
+    hits = sum(len(_index_hazards(f, cpar)[1]) for f in ast.walk(ctree) if isinstance(f, ast.FunctionDef))
+    if hits != 3:
+        raise AnalysisError(f"positive control controls/render_index.py: {hits} hits, expected 3")
+    rep.ok(rule, "controls/render_index.py", "positive control: 3 hazards found, none in the bounded twin")
+    rep.ok(rule, MOD, f"{n} indexed field access(es) examined")
+
+
+def _ends_with_newline(t) -> bool:
+    if is_const(t):
+        return isinstance(t[1], str) and t[1].endswith("\n")
+    if isinstance(t, tuple) and t:
+        if t[0] == "fstr" and len(t) > 1:
+            return _ends_with_newline(t[-1])
+        if t[0] == "binop" and t[1] == "+":
+            return _ends_with_newline(t[3])
+        if t[0] == "concat":
+            return _ends_with_newline(t[-1])
+    return False
+
+
+def rule_doc_starts_block(rep: Report, repo: Repo, rule: str) -> None:
+    """The doc text of an entry starts a block of its own: whatever text() is emitted on the same directive right before it ends
+    with a line break (text() itself adds no paragraph separation)."""
+    rep.rule(rule, "no text() emission directly precedes text(self.doc) on the same directive unless it ends with a newline: "
+                   "otherwise the sentence and the first block of the doc text merge into one paragraph")
+    n = 0
+    for ci in repo.classes.values():
+        if ci.module != MOD or repo.find_method(ci.name, "process") is None or ci.name in ("DocumentationType",):
+            continue
+        try:
+            outs = outcomes(repo, ci.name)
+        except AnalysisError:
+            continue
+        for i, o in enumerate(outs):
+            ems = [e for e in emissions(o, i) if e.loop is None]
+            for a, b in zip(ems, ems[1:]):
+                if a.method == "text" and b.method == "text" and a.recv == b.recv and b.args and b.args[0] == S("doc"):
+                    n += 1
+                    t = show(a.args[0]) if a.args else ""
+                    ends_nl = bool(a.args) and _ends_with_newline(a.args[0])
+                    rep.check(ends_nl, rule, where(ci.name), f"text({t[:50]}) ; text(self.doc)",
+                              "a sentence is emitted directly before the doc text without a separating blank line: a doc that starts with a "
+                              "list or field list is parsed as part of that sentence's paragraph",
+                              witness="cpp_member(f C args) documented with a doc starting with '* item'")
+    rep.ok(rule, MOD, f"{n} text-before-doc adjacency(ies) examined")
+
+
+def rule_no_line_breaks_introduced(rep: Report, repo: Repo, rule: str) -> None:
+    """Field values, directive arguments and option values are single logical lines as far as CMinx is concerned: the render
+    methods neither wrap them (textwrap.*) nor splice a line break into them.  (A continuation line of a field value starts in
+    column 0 and falls out of the directive.)"""
+    from ..absint import subterms
+    rep.rule(rule, "no render method passes a value through textwrap.* / a line-joining call, or a constant containing a line break, "
+                   "into field(), directive() or option(): CMinx itself never introduces a line break into a one-line construct")
+    n = 0
+    for ci in repo.classes.values():
+        if ci.module != MOD or repo.find_method(ci.name, "process") is None or ci.name == "DocumentationType":
+            continue
+        try:
+            outs = outcomes(repo, ci.name)
+        except AnalysisError:
+            continue
+        for i, o in enumerate(outs):
+            for e in emissions(o, i):
+                if e.method not in ("field", "directive", "option"):
+                    continue
+                for a in list(e.args) + [v for _k, v in e.kwargs]:
+                    n += 1
+                    bad = None
+                    for t in subterms(a):
+                        if isinstance(t, tuple) and t and t[0] == "call" and t[1][0] == "global" and t[1][1].split(".")[0] == "textwrap":
+                            bad = f"{t[1][1]}(...)"
+                        if isinstance(t, tuple) and t and t[0] == "call" and t[1][0] == "attr" and t[1][2] == "join" and is_const(t[1][1]) \
+                                and isinstance(t[1][1][1], str) and "\n" in t[1][1][1]:
+                            bad = "'\\n'.join(...)"
+                        if is_const(t) and isinstance(t[1], str) and "\n" in t[1] and e.method != "directive":
+                            bad = "a constant with a line break"
+                    rep.check(bad is None, rule, where(ci.name), f"{e.method}({show(a)[:60]})",
+                              f"{bad} introduces line breaks into a {e.method} value: the continuation lines are not indented and leave "
+                              f"the entry's directive", witness="set(SOURCES <nine long paths>) with a doccomment")
+    rep.floor(rule, 20, "field / directive / option values")
